@@ -36,8 +36,10 @@ each other there), so the weaker reading is adopted: an exception is accepted,
 oracle:BlockMean is not demanded, and only oracle:OutShape / DType / InRange
 ("never overflow or wrap, between the minimum and maximum of the contributing
 values", the outside value being a contributor) are evaluated - by TLC
-(OvInType in Trace_Downscale).  Non-integer outside values for integer data
-are not generated.
+(OvInType in Trace_Downscale).  Non-integer outside values inside the range
+of an integer data type (--outside-value is a float: 0.5, 100.5, 7.25,
+max - 0.5) are fully judged: data and outside value travel in units of 2^-u,
+the mean is sum / (count * 2^u) rounded half-to-even (Downscale!UBits).
 
 Known-finding matching: for a failing InRange / BlockMean clause of the
 averaging method on integer data TLC also reports a class of the deviation
@@ -185,6 +187,18 @@ def directed_calls(ctx, calls):
             arr = np.array([top[k % 4] for k in range(n)], dtype=dtype).reshape(shape)
             odd = [f for f in dd.AVG_FACTORS if any(f[a] == 2 and shape[3 - a] % 2 for a in range(3))]
             add_call(ctx, calls, "directed-ov-out-of-type", "average", rng.choice(odd), outside, arr, "image")
+    # (4) non-integer outside values for integer data (fully judged: Downscale!UBits)
+    for dtype in dd.NG_DTYPES[:3]:
+        for outside in dd.outside_values_fractional(dtype):
+            for shape in rng.sample(ODD_SHAPES, ctx.pick(2, 4)):
+                pool = [0, 1, 100, 101, dd.type_max(dtype), dd.type_max(dtype) - 1, 7, 8]
+                n = shape[0] * shape[1] * shape[2] * shape[3]
+                arr = (dd.random_array(rng, dtype, shape) if rng.random() < 0.5 else
+                       np.array([rng.choice(pool) for _ in range(n)], dtype=dtype).reshape(shape))
+                odd = [f for f in dd.AVG_FACTORS
+                       if any(f[a] == 2 and shape[3 - a] % 2 for a in range(3))]
+                add_call(ctx, calls, "directed-ov-fractional", rng.choice(["average", "average", "auto"]),
+                         rng.choice(odd), outside, arr, "image")
 
 
 EFFECTIVE = {("auto", "image"): "average", ("auto", "segmentation"): "stride"}
